@@ -3,6 +3,7 @@
 mod util;
 mod c22;
 mod c27;
+mod c28;
 mod c29;
 mod proj;
 
@@ -15,6 +16,7 @@ fn main() {
     match argv[0].as_str() {
         "c22" => c22::main(&args),
         "c27" => c27::main(&args),
+        "c28" => c28::main(&args),
         "c29" => c29::main(&args),
         other => util::tool_error(&format!("unknown subcommand {other}")),
     }
